@@ -278,3 +278,192 @@ def h2_response_headers(status: int, hk: int, date: bool, server: bool, info: bo
         want.append((b"server", b"hypercorn-h2"))
     ok = t.done and t.exc is None and rec.calls == [("headers", 3, want)]
     return done(ok, status=status, hk=hk, date=date, server=server, info=info)
+
+
+# ------------------------------------------------------------------ delivery sessions (tier B, independent client parsers)
+
+from vf.stubs.b import Conn, GatedApp  # noqa: E402
+from vf.stubs.clients import H2Client, h1_parse, h1_request  # noqa: E402
+
+S_STATUS = [200, 201, 204, 304, 404, 500, 599]
+S_CHUNKS = [[0], [1], [0, 1, 0], [16384, 16385], [70000], [1, 65536, 3], [5, 0, 5]]
+S_HEADERS = ["none", "content-length", "repeated x-a", "content-type + x-b"]
+_BLOB = bytes((i * 13 + 5) % 251 for i in range(70000))
+
+
+def _resp_steps(status: int, hdr: int, chunks, suppressed_len: bool):
+    total = sum(chunks)
+    headers = []
+    if hdr == 1:
+        headers = [(b"content-length", str(total).encode())]
+    elif hdr == 2:
+        headers = [(b"x-a", b"1"), (b"x-a", b"2")]
+    elif hdr == 3:
+        headers = [(b"content-type", b"text/plain"), (b"x-b", b"v")]
+    steps = ["recv_body", ("send", {"type": "http.response.start", "status": status, "headers": list(headers)})]
+    pos = 0
+    for i, n in enumerate(chunks):
+        steps.append(("send", {"type": "http.response.body", "body": _BLOB[pos:pos + n], "more_body": i < len(chunks) - 1}))
+        pos += n
+    return steps, headers, _BLOB[:total]
+
+
+_SERVER_OWN = (b"date", b"server", b"alt-svc", b"connection", b"transfer-encoding")
+
+
+def _check_headers(got, app_headers) -> str:
+    names = [(n.lower(), v) for n, v in got if not n.startswith(b":")]
+    k = len(app_headers)
+    if names[:k] != [(n.lower(), v) for n, v in app_headers]:
+        return f"application headers not delivered first and in order: {names!r} vs {app_headers!r}"
+    for n, v in names[k:]:
+        if n not in _SERVER_OWN:
+            return f"foreign header after the application's: {n!r}"
+    return ""
+
+
+@harness(
+    "C02",
+    dom={"si": (0, len(S_STATUS) - 1), "hi": (0, 3), "ci": (0, len(S_CHUNKS) - 1), "head": "bool", "v10": "bool"},
+    split={"si": "each"},
+    witnesses=[{"si": 0, "hi": 1, "ci": 3, "head": False, "v10": False}, {"si": 2, "hi": 0, "ci": 1, "head": False, "v10": True}, {"si": 0, "hi": 1, "ci": 4, "head": True, "v10": False}],
+    budget={"quick": 150, "thorough": 600},
+    per_path=120,
+    bounds="HTTP/1 responses: 7 statuses x 4 header lists (none, content-length, repeated names, two headers) x 7 chunkings (empty chunks, 1 byte, around 16384/65536, 70000) x GET/HEAD x HTTP/1.1/1.0, parsed by an independent h11 client",
+    encodes=["hypercorn/protocol/h11.py::H11Protocol.stream_send", "hypercorn/protocol/h11.py::H11Protocol._send_h11_event", "hypercorn/protocol/http_stream.py::HTTPStream.app_send", "hypercorn/utils.py::suppress_body"],
+    stubs=["tier B runtime"],
+)
+def h1_response_delivery(si: int, hi: int, ci: int, head: bool, v10: bool) -> bool:
+    """
+    pre: DOM(h1_response_delivery, si=si, hi=hi, ci=ci, head=head, v10=v10)
+    post: _
+    """
+    enter()
+    status = S_STATUS[conc(si, 0, len(S_STATUS) - 1)]
+    hi = conc(hi, 0, 3)
+    chunks = S_CHUNKS[conc(ci, 0, len(S_CHUNKS) - 1)]
+    head = True if head else False
+    v10 = True if v10 else False
+    method = "HEAD" if head else "GET"
+    no_body = ref_suppress(method, status)
+    if status in (204, 304) and hi == 1 and sum(chunks) > 0:
+        return done(True, skipped="a content-length on a bodiless status is the application's own inconsistency")
+    steps, app_headers, body = _resp_steps(status, hi, chunks, no_body)
+    conn = Conn(None, make_config())
+    app = GatedApp(conn.ctx, lambda scope, idx: steps, gated=False)
+    conn.proto.app = app
+    conn.proto.protocol.app = app
+    conn.feed(h1_request(method, b"/r", [(b"Host", b"example.com")], version=b"1.0" if v10 else b"1.1"))
+    if v10 or not conn.server_closed:
+        pass
+    resps, err, closed, trailing = h1_parse(conn.out.peek(), [(method, b"/r")], eof=conn.server_closed)
+    why = ""
+    if err or len(resps) != 1:
+        why = f"{err} {resps!r}"
+    else:
+        r = resps[0]
+        if r.status != status:
+            why = f"status {r.status} != {status}"
+        elif not r.complete:
+            why = f"response not complete: {r!r}"
+        elif r.body != (b"" if no_body else body):
+            why = f"body of {len(r.body)} bytes, expected {0 if no_body else len(body)}"
+        else:
+            why = _check_headers(r.headers, app_headers)
+        if not why and trailing:
+            why = f"bytes after the end of the response: {trailing[:40]!r}"
+    if not why and app.instances and app.instances[0].send_errors:
+        why = f"send raised {app.instances[0].send_errors!r}"
+    if not why and conn.sched.errors:
+        why = "exception escaped a task: %r" % (conn.sched.errors[0],)
+    return done(why == "", status=status, headers=S_HEADERS[hi], chunks=chunks, method=method, version="1.0" if v10 else "1.1", why=why)
+
+
+PACES = ["acknowledges stream and connection at once", "acknowledges on the connection only (huge stream windows)", "2000-byte initial window, acknowledges at once", "acknowledges only when the server has stalled"]
+
+
+@harness(
+    "C02",
+    dom={"si": (0, len(S_STATUS) - 1), "hi": (0, 3), "ci": (0, len(S_CHUNKS) - 1), "head": "bool", "pace": (0, 3), "h2c": "bool"},
+    split={"pace": "each", "ci": "each"},
+    witnesses=[{"si": 0, "hi": 1, "ci": 4, "head": False, "pace": 1, "h2c": False}, {"si": 3, "hi": 2, "ci": 5, "head": True, "pace": 3, "h2c": True}],
+    budget={"quick": 200, "thorough": 900},
+    per_path=120,
+    bounds="HTTP/2 responses: 7 statuses x 4 header lists x 7 chunkings x GET/HEAD x 4 client paces (acks both levels, connection level only, 2000-byte initial window, acks only when stalled) x h2 via ALPN or via h2c upgrade, parsed by an independent h2 client that enforces flow control",
+    encodes=["hypercorn/protocol/h2.py::H2Protocol.stream_send", "hypercorn/protocol/h2.py::H2Protocol._send_data", "hypercorn/protocol/h2.py::H2Protocol.send_task", "hypercorn/protocol/h2.py::H2Protocol._window_updated",
+             "hypercorn/protocol/h2.py::H2Protocol.initiate", "hypercorn/protocol/http_stream.py::HTTPStream.app_send"],
+    stubs=["tier B runtime"],
+)
+def h2_response_delivery(si: int, hi: int, ci: int, head: bool, pace: int, h2c: bool) -> bool:
+    """
+    pre: DOM(h2_response_delivery, si=si, hi=hi, ci=ci, head=head, pace=pace, h2c=h2c)
+    post: _
+    """
+    enter()
+    status = S_STATUS[conc(si, 0, len(S_STATUS) - 1)]
+    hi = conc(hi, 0, 3)
+    chunks = S_CHUNKS[conc(ci, 0, len(S_CHUNKS) - 1)]
+    head = True if head else False
+    pace = conc(pace, 0, 3)
+    h2c = True if h2c else False
+    method = b"HEAD" if head else b"GET"
+    no_body = ref_suppress(method.decode(), status)
+    if status in (204, 304) and hi == 1 and sum(chunks) > 0:
+        return done(True, skipped="a content-length on a bodiless status is the application's own inconsistency")
+    if head and h2c:
+        return done(True, skipped="the h2 client library cannot know that the upgraded stream 1 was a HEAD request and rejects its content-length")
+    steps, app_headers, body = _resp_steps(status, hi, chunks, no_body)
+    steps = ["recv"] + steps[1:]
+    window = {0: None, 1: 1000000, 2: 2000, 3: None}[pace]
+    client = H2Client(initial_window=window, auto_ack=pace in (0, 2), upgrade=h2c)
+    conn = Conn(None, make_config(), alpn=None if h2c else "h2")
+    app = GatedApp(conn.ctx, lambda scope, idx: steps, gated=False)
+    conn.proto.app = app
+    conn.proto.protocol.app = app
+    if h2c:
+        from vf.stubs.clients import split_h1_head
+
+        req = h1_request(method.decode(), b"/r", [(b"Host", b"example.com"), (b"Connection", b"Upgrade, HTTP2-Settings"), (b"Upgrade", b"h2c"), (b"HTTP2-Settings", client.upgrade_settings)])
+        conn.feed(req)
+        out = conn.take()
+        hd = split_h1_head(out)
+        if hd is None or hd[0] != 101:
+            return done(False, why=f"h2c upgrade refused: {out[:60]!r}")
+        conn.feed(client.take())
+        client.feed(hd[2])
+        client._s(1)
+    else:
+        client.request(1, method, b"/r", end_stream=True)
+        conn.feed(client.take())
+    for _ in range(120):
+        client.feed(conn.take())
+        if pace == 1:
+            client.ack_connection_only()
+        elif pace == 3:
+            # acknowledge (both levels) only once the server has nothing more to say
+            for sid, n in list(client.unacked.items()):
+                if n:
+                    client.ack(sid, n)
+            client.unacked.clear()
+        more = client.take()
+        if not more:
+            break
+        conn.feed(more)
+    client.feed(conn.take())
+    st = client.streams.get(1)
+    why = ""
+    if client.errors:
+        why = f"client-side protocol/flow-control error: {client.errors!r}"
+    elif st is None or st.status != status:
+        why = f"status {st.status if st else None} != {status}"
+    elif st.ended != 1:
+        why = f"end of stream signalled {st.ended} times (body {len(st.data)}/{0 if no_body else len(body)} bytes)"
+    elif st.data != (b"" if no_body else body):
+        why = f"body of {len(st.data)} bytes, expected {0 if no_body else len(body)}"
+    else:
+        why = _check_headers(st.headers, app_headers)
+    if not why and app.instances and app.instances[0].send_errors:
+        why = f"send raised {app.instances[0].send_errors!r}"
+    if not why and conn.sched.errors:
+        why = "exception escaped a task: %r" % (conn.sched.errors[0],)
+    return done(why == "", status=status, headers=S_HEADERS[hi], chunks=chunks, method=method, pace=PACES[pace], h2c=h2c, why=why)
